@@ -7,6 +7,8 @@ EXPLANATION = ("Sibling cross-checking of the two subclasses of the wrapper base
                "same tracked-list discipline and alignment (R-TRACK), same sense mapping (R-SENSE), one dual sign transformation (R-SIGN), row-index "
                "bookkeeping (R-ROWIDX), provenance of matrix-variable indices (R-BARIDX) and of the objective slot (R-OBJSLOT), same heuristic constraint "
                "and objective (R-HEUR), LMI encodings (R-LMIENC), sparse translator (R-TRANSL), objective sense (R-OBJSENSE)."
+               " R-ENTRY: the back-end asked for is the back-end used. R-LMIORDER: while matrix variables are numbered by creation counter, the order in "
+               "which the unrolled solve root sends declared and generated LMIs."
                ' Also: MOSEK row data (Gram matrix with weight 1 on bar-variable 0, F weights on their columns), variable counts consistent with generate_problem, packed-triangle unpacking unrolled for sizes 1..4, row-index arrays not narrowed to int8; the objective leaf both back-ends are generated with is a new leaf created by every solve before anything is sent (R-FRESH: the position-based objective slot of the MOSEK back-end has no other chance of being right), and the arguments of the wrapper calls travel to the parameters of their own names (R-ARGBIND). The MOSEK methods are also unrolled as task programs against a model of the Task API (rules/mosekprog.py): rows of a scalar constraint and of every entry of 1x1..3x3 LMIs (R-MOSEKPROG), multipliers read back for every sequence of tracked kinds up to length 3 (R-MOSEKDUAL), optimiser called exactly once per solve (R-SOLVECALL), heuristic objective <W, G> from the lower triangle of the weight (R-HEUROBJ).')
 TRUSTED = ["CPython ast", "MOSEK Task API facts: bar-variables and rows are numbered in append order; sparse symmetric matrices are lower-triangular; "
            "gety / getbarsj return the multipliers of rows / matrix variables"]
